@@ -107,18 +107,21 @@ def _is_elif(parent: ast.If, child: ast.If) -> bool:
 # ---------------------------------------------------------------------------------------------------------------------
 # N3 guard-clause form
 
-def _flatten_block(stmts: List[ast.stmt], in_loop: bool = False) -> List[ast.stmt]:
-    # in a loop body `...; if c: rest` (last statement, no else) is the same as `...; if not c: continue; rest`
-    if in_loop and stmts and isinstance(stmts[-1], ast.If) and not stmts[-1].orelse and not _terminates(stmts[-1].body):
+def _flatten_block(stmts: List[ast.stmt], in_loop: bool = False, in_function: bool = False) -> List[ast.stmt]:
+    # in a loop body `...; if c: rest` (last statement, no else) is the same as `...; if not c: continue; rest`;
+    # at the end of a function body it is the same as `...; if not c: return; rest`
+    if (in_loop or in_function) and len(stmts) > 1 and isinstance(stmts[-1], ast.If) and not stmts[-1].orelse and not _terminates(stmts[-1].body):
         last = stmts[-1]
-        guard = ast.copy_location(ast.If(test=_negate(last.test), body=[ast.copy_location(ast.Continue(), last)], orelse=[]), last)
+        leave = ast.Continue() if in_loop else ast.Return(value=None)
+        guard = ast.copy_location(ast.If(test=_negate(last.test), body=[ast.copy_location(leave, last)], orelse=[]), last)
         stmts = list(stmts[:-1]) + [guard] + list(last.body)
     out: List[ast.stmt] = []
     for st in stmts:
         for field in ("body", "orelse", "finalbody"):
             sub = getattr(st, field, None)
             if isinstance(sub, list) and sub and isinstance(sub[0], ast.stmt):
-                setattr(st, field, _flatten_block(sub, in_loop=(field == "body" and isinstance(st, (ast.For, ast.AsyncFor, ast.While)))))
+                setattr(st, field, _flatten_block(sub, in_loop=(field == "body" and isinstance(st, (ast.For, ast.AsyncFor, ast.While))),
+                                                  in_function=(field == "body" and isinstance(st, FDEFS) and not any(isinstance(n, (ast.Yield, ast.YieldFrom)) for n in _walk_own(st)))))
         if isinstance(st, ast.Try):
             for h in st.handlers:
                 h.body = _flatten_block(h.body)
